@@ -314,6 +314,11 @@ def gen_case(rng, tier, kind=None):
         case["K"] = rng.randint(20, 40)  # a long training that the threshold has to stop
     case["sched"] = gen_sched(rng)
     case["xmodes"] = rng.random() < 0.5
+    if rng.random() < 0.12:
+        # the estimator that is trained was derived from a template estimator (possibly already
+        # trained the same way) that stays alive and is changed afterwards through public setters
+        case["derive"] = {"how": rng.choice(["copy", "copy", "deepcopy"]),
+                          "fit_first": rng.random() < 0.5}
     return case
 
 
@@ -573,6 +578,8 @@ def _fit(case, m, X):
             if is_harness_bug(_e):
                 raise HarnessError(f"harness bug: {_e!r}")
             pass
+    if case.get("derive"):
+        m = _derive(case, m, X)
     m = _fit_once(case, m, X)
     if case.get("refit"):
         # a long-lived estimator object trained again (nothing from the first call may leak
@@ -584,6 +591,24 @@ def _fit(case, m, X):
                 m = _fit_once(case, m, X2, reverse=True)
             else:
                 m = _fit_once(case, m, X)
+    return m
+
+
+def _derive(case, t, X):
+    import copy as _copy
+    dv = case["derive"]
+    if dv["fit_first"]:
+        t = _fit_once(case, t, X)
+    m = _copy.copy(t) if dv["how"] == "copy" else _copy.deepcopy(t)
+    # the template lives on: its parameters are re-assigned through the public setters
+    if case["kind"].startswith("gmm") and getattr(t, "_means", None) is not None:
+        t.means = np.array(t.means, float) * 1.5 + 0.25
+        t.variances = np.array(t.variances, float) * 2.0
+        t.weights = np.array(t.weights, float)[::-1].copy()
+    elif case["kind"] in ("isv", "jfa"):
+        for nm in ("U", "V", "D"):
+            if getattr(t, nm, None) is not None:
+                setattr(t, nm, np.array(getattr(t, nm), float) * 2.0 + 0.5)
     return m
 
 
